@@ -474,6 +474,7 @@ def check_c13(chk, args):
     chk.cov['evaluations'] = len(cases) * 2
     stdlib_cycles(chk)
     aborted_prints(chk)
+    overlapping_prints(chk)
     chk.cov['traces_validated_against_impl'] = len(cases)
     chk.cov['rule'] = ('rooted directed graphs of list / dict / tuple nodes with 0-2 child slots (node or int leaf): all '
                        'with <= 2 nodes, all/sampled with 3 list-or-dict nodes, random ones up to 10 nodes; unreachable '
@@ -545,6 +546,46 @@ def aborted_prints(chk):
                       'recursion marker although it contains no cycle: %r' % (again,), {'output': again})
     chk.cov['evaluations'] += n + 2
     chk.stage('aborted-prints', prints=n + 2)
+
+
+def overlapping_prints(chk):
+    """'...exactly where it is reached again WHILE IT IS STILL BEING PRINTED' is about the print in which it is reached:
+    a second print (another thread) that meets a container the first print is inside of at that moment has not
+    reached it 'again'. Two threads print values sharing containers, switched at source lines of the package; each
+    result must be the lone print's."""
+    import glob as _glob
+    import sched
+    pkgdir = os.path.dirname(P.__file__)
+    files = _glob.glob(os.path.join(pkgdir, '*.py'))
+    shared = [1, 2]
+    g1 = [shared, {'k': shared}, (shared,)]
+    cyc = [g1]
+    cyc.append(cyc)
+    outer = {'a': g1, 'b': [g1, shared]}
+    vals = {'g1': g1, 'cyc': cyc, 'outer': outer, 'shared': shared}
+
+    def job(name, **kw):
+        def fn():
+            with warnings.catch_warnings():
+                warnings.simplefilter('ignore')
+                return P.pformat(vals[name], **kw)
+        return fn
+    lone = {n: job(n, width=20)() for n in vals}
+    q = chk.tier == 'quick'
+    n = 0
+    for a, b in (('g1', 'g1'), ('cyc', 'g1'), ('outer', 'cyc'), ('g1', 'shared'), ('outer', 'outer')):
+        _, _, na = sched.run_with_preemption(job(a, width=20), job(b, width=20), None, files)
+        for k in sorted(set(max(1, na * i // (12 if q else 60)) for i in range(1, (12 if q else 60)))):
+            ra, rb, _ = sched.run_with_preemption(job(a, width=20), job(b, width=20), k, files)
+            n += 1
+            for who, nm, r in (('first', a, ra), ('second', b, rb)):
+                if r != ('ok', lone[nm]):
+                    chk.violation('C13.unfold', 'two overlapping prints (%s paused before its line %d while %s is printed by another '
+                                  'thread): the %s gives %r, alone it gives %r' % (a, k, b, who, r[1][:300], lone[nm][:300]),
+                                  {'values': [a, b], 'paused_before_line': k, 'result': list(r), 'alone': lone[nm]})
+            chk.nontrivial(('overlap', a, b, k))
+    chk.cov['evaluations'] += 2 * n
+    chk.stage('overlapping-prints', executions=n)
 
 
 def stdlib_cycles(chk):
